@@ -52,6 +52,29 @@ func nativeFiles(fam, bounds string, chunk int) (map[string]string, int) {
 		}
 		pkgNames = append(pkgNames, "s0")
 		n = cnt
+	} else if fam == "alias" {
+		var d int
+		fmt.Sscanf(bounds, "d%d", &d)
+		progs := gen.AliasFamily(d)
+		n = len(progs)
+		for first := 0; first < len(progs); first += chunk {
+			last := first + chunk
+			if last > len(progs) {
+				last = len(progs)
+			}
+			name := fmt.Sprintf("al%d", len(pkgNames))
+			pkgNames = append(pkgNames, name)
+			var sb, reg strings.Builder
+			fmt.Fprintf(&sb, "package %s\n\nimport \"zsubj/rt\"\n\nvar _ = rt.Cond\n\n", name)
+			reg.WriteString("var Progs = []rt.Entry{\n")
+			for i := first; i < last; i++ {
+				pre := gen.Prefix(i)
+				fmt.Fprintf(&sb, "// %s\n%s\n", progs[i].Sig(), progs[i].Body(pre))
+				fmt.Fprintf(&reg, "\t{Name: %q, Main: %smain, Reset: %sreset},\n", fmt.Sprint(i), pre, pre)
+			}
+			reg.WriteString("}\n")
+			files[name+"/p.go"] = sb.String() + reg.String()
+		}
 	} else if fam == "dispatch" || fam == "gopanic" {
 		subs := subjects(fam, bounds)
 		n = len(subs)
